@@ -277,7 +277,7 @@ def _path_vocabulary(d, leaves_ok: tuple, names_of: tuple = ()) -> bool:
     return True
 
 
-def _root_tests(sx: SymX, fs, rel: Term) -> dict[str, bool]:
+def _root_tests(sx: SymX, fs, rel: Term, root: Term | None = None) -> dict[str, bool]:
     """Atoms of the formulas `fs` that test 'the path is the source root itself' -> polarity (True: atom true means root)."""
     out: dict[str, bool] = {}
     for key in sorted({a for f in fs for a in atoms_of(f)}):
@@ -291,7 +291,7 @@ def _root_tests(sx: SymX, fs, rel: Term) -> dict[str, bool]:
                 out[key] = True
             elif loc(a) == rel and loc(b) == ("const", ".") or loc(b) == rel and loc(a) == ("const", "."):
                 out[key] = True
-            elif {strip_abs(loc(a)), strip_abs(loc(b))} == {strip_abs(rel[1]), strip_abs(rel[2])}:
+            elif {strip_abs(loc(a)), strip_abs(loc(b))} == {strip_abs(rel[1]), strip_abs(root if root is not None else rel[2])}:
                 out[key] = True
         else:
             l = loc(t)
@@ -316,30 +316,35 @@ def rule_r3(repo: Repo, res: Result) -> None:
         # the relative location the name is built from
         rels = {l for x in subterms(el) for l in [loc(x)] if l[0] == "REL" and strip_abs(l[1]) == strip_abs(loc(reg.path))}
         if len(rels) != 1:
-            res.add("C04.R3", key + " [name relative to the source root]", False, f"the registered name `{show(el, 120)}` is not computed from the path relative to one source root", wh, kind="structural")
+            res.undecide("C04.R3", key + " [name relative to the source root]", f"cannot see how the registered name `{show(el, 120)}` is computed from the path relative to the source root", wh)
             continue
         rel = rels.pop()
-        root = rel[2]
         init = repo.lookup_method(info.parse.cls, "__init__") if info.parse.cls else None
         root_param = f"{info.parse.cls.name}.{init.param_names[2]}" if init is not None and len(init.param_names) > 2 else None
+        base_loc = rel[2]
+        root = base_loc[1] if base_loc[0] == "PARENT" else base_loc  # `p.relative_to(root.parent)` starts with the root's name as well
+        root = strip_abs(root)
         ok = root == ("param", root_param) if info.ctor_heap else root[0] == "attr" and root[1] == ("param", info.parse.param_names[0])
-        res.add("C04.R3", key + " [relative to the source root]", ok, "names are computed from the path relative to the scanner's source root" if ok else f"module names are computed relative to `{show_loc(root)}`, not to the source root handed to the scanner", wh, kind="structural")
+        res.add("C04.R3", key + " [relative to the source root]", ok, "names are computed from the path relative to the scanner's source root" if ok else f"module names are computed relative to `{show_loc(base_loc)}`, not to the source root handed to the scanner", wh, kind="structural")
         alts = list(el[1]) if el[0] == "phi" else [(TRUE, el)]
-        want = [("item", ("attr", root, "name")), ("parts", ("NOSUF", rel))]
+        want = [("parts", ("NOSUF", rel))] if base_loc[0] == "PARENT" else [("item", ("attr", root, "name")), ("parts", ("NOSUF", rel))]
         want_root = [("item", ("attr", root, "name"))]
         general = [(g, v) for g, v in alts if dotted(v) != want_root]
         rootcase = [(g, v) for g, v in alts if dotted(v) == want_root]
         done += 1
         # ---- general shape
         bad = [(g, v) for g, v in general if dotted(v) != want]
+        readable = True
         if not general:
             res.add("C04.R3", key + " [naming shape]", False, "every path is named by the root directory's name alone", wh, kind="structural")
         elif bad:
             g, v = bad[0]
             d = dotted(v)
             if d is None:
+                readable = False
                 res.undecide("C04.R3", key + " [naming shape]", f"cannot read `{show(v, 160)}` as a dotted name", wh)
-            elif not _path_vocabulary(d, (rel[1], root, strip_abs(rel[1]))):
+            elif not _path_vocabulary(d, (rel[1], root, strip_abs(rel[1])), (root,)):
+                readable = False
                 res.undecide("C04.R3", key + " [naming shape]", f"cannot compare the name `{show_dotted(d)}` with `{show_dotted(want)}`", wh)
             else:
                 why = "does not start with the root directory's name" if not d or d[0] != want[0] else "is not the path relative to the root with the suffix removed, one component per path part"
@@ -347,16 +352,18 @@ def rule_r3(repo: Repo, res: Result) -> None:
         else:
             res.add("C04.R3", key + " [naming shape]", True, "name = root directory name + '.' + relative path without suffix, one component per path part", wh, kind="structural")
         # ---- the root itself
-        tests = _root_tests(sx, [g for g, _ in alts], rel)
+        tests = _root_tests(sx, [g for g, _ in alts], rel, root)
 
         def as_root(f: Formula) -> Formula:
             from .c04_norm import rename_atoms
 
             return rename_atoms(f, lambda k: (atom("ROOT") if tests[k] else f_not(atom("ROOT"))) if k in tests else None)
 
+        if not readable:
+            continue
         if not rootcase:
             ok = False
-            detail = "the source root itself is not named by its own directory name (no case for the empty relative path: the general form fails or appends an empty component)"
+            detail = "the source root itself is not named by its own directory name (no case for it: the general form fails, appends an empty component or removes a suffix from the directory name)"
         else:
             g_root = as_root(f_or([g for g, _v in rootcase]))
             g_gen = as_root(f_or([g for g, _v in general])) if general else FALSE
@@ -647,6 +654,7 @@ def rule_r4(repo: Repo, res: Result) -> None:
     # consecutive inherits edges
     inherit_edges = [(e, a, b, inh) for e, a, b, inh in edge_events if inh is not None and not is_const(inh, False)]
     best = None
+    unreadable: list = []
     for e, a, b, inh in edge_events:
         pa, pb = _sym_pos(names, a), _sym_pos(names, b)
         if pa is None or pb is None or pa[0] != pb[0]:
@@ -656,6 +664,9 @@ def rule_r4(repo: Repo, res: Result) -> None:
         problems = []
         ch = chain_of(pa)
         if ch is None or ch[1] != "full":
+            if not any(x[0] == "call" and x[1] == ("fn", gpm.fq) for x in subterms(pa[0])):
+                unreadable.append((e, pa[0]))
+                continue
             problems.append(f"the linked chain is `{show(pa[0], 100)}`, not get_parent_modules(module) + [module] of the scanned module")
         if not _covers_all_pairs(pa, pb):
             problems.append("the loop does not visit every consecutive (parent, child) pair of the chain")
@@ -668,6 +679,10 @@ def rule_r4(repo: Repo, res: Result) -> None:
         if best is None or cand[0] < best[0]:
             best = cand
     ctag = f"{tag}::ancestors of every scanned module: nodes and consecutive parent->child hierarchy edges"
+    if best is None and unreadable:
+        e, chain = unreadable[0]
+        res.undecide("C04.R4", ctag, f"the ancestors linked by `{norm(e.node, 60)}` are `{show(chain, 100)}`: not computed by get_parent_modules, cannot tell whether they are all ancestors", where(e.fi, e.node))
+        return
     if best is None:
         if inherit_edges:
             e = inherit_edges[0][0]
@@ -765,6 +780,14 @@ def _eval_guard(sx: SymX, g: Formula, facts: dict, internal: Term, depth: int):
             env[key] = facts[("truth", t)]
             continue
         if t is None or not (t[0] == "cmp" and t[1] == "in" and t[3] == internal):
+            # not a membership test: decided by the path condition of the constructor call, or unknown
+            known = facts.get("known", TRUE)
+            if len(atoms_of(known)) <= 12 and implies(known, atom(key)):
+                env[key] = True
+                continue
+            if len(atoms_of(known)) <= 12 and implies(known, f_not(atom(key))):
+                env[key] = False
+                continue
             return None
         name = _concretise(sx, t[2], facts, internal, depth + 1)
         if name is None or name not in facts:
@@ -914,16 +937,13 @@ def rule_r5(repo: Repo, res: Result) -> None:
             def as_same(f: Formula) -> Formula:
                 return rename_atoms(f, lambda k_: (atom("SAME") if tests[k_] else f_not(atom("SAME"))) if k_ in tests else None)
 
-            if not empty:
-                # the general form yields '' on its own only when parent.relative_to(parent) is '.', which is not the empty prefix
-                res.add("C04.R5", key + " [no prefix without a path difference]", False, "a prefix is used even when root_path equals module_path", where(e.fi, e.node), kind="dominance")
-            else:
-                g_empty = as_same(f_or([g for g, _ in empty]))
-                ok = implies(g_empty, atom("SAME")) and implies(atom("SAME"), g_empty)
-                if not ok and atoms_of(g_empty) - {"SAME"}:
-                    res.undecide("C04.R5", key + " [no prefix without a path difference]", f"cannot read `{show_formula(g_empty)[:160]}` as the test 'root_path equals module_path'", where(e.fi, e.node))
+            if main:
+                g_main = as_same(f_or([g for g, _ in main]))
+                ok = implies(f_not(atom("SAME")), g_main)
+                if not ok and atoms_of(g_main) - {"SAME"}:
+                    res.undecide("C04.R5", key + " [used whenever the paths differ]", f"cannot read `{show_formula(g_main)[:160]}` as a test on 'root_path equals module_path'", where(e.fi, e.node))
                 else:
-                    res.add("C04.R5", key + " [no prefix without a path difference]", ok, "no prefix exactly when root_path equals module_path" if ok else f"the empty prefix is used under `{show_formula(g_empty)[:120]}`, not exactly when root_path equals module_path", where(e.fi, e.node), kind="dominance")
+                    res.add("C04.R5", key + " [used whenever the paths differ]", ok, "the prefix is used whenever module_path differs from root_path" if ok else f"the prefix is only used under `{show_formula(g_main)[:120]}`: not whenever module_path differs from root_path", where(e.fi, e.node), kind="dominance")
     # ---- the converter: absolute importees are adjusted, relative ones are not
     sx2 = SymX(repo, T)
     tr2 = sx2.run(convert)
@@ -982,6 +1002,7 @@ def _check_adjusted(sx: SymX, name: Term, P: Term, I: Term, guard: Formula = TRU
         universe = universe + [("truth", P)]
     for values in itertools.product([False, True], repeat=len(universe)):
         facts = dict(zip(universe, values))
+        facts["known"] = guard
         if a is not None and facts[(p, n, a)] and not facts[(p, n)]:
             continue  # a scanned module's package is scanned as well
         if tests_prefix and not facts[("truth", P)] and (facts[(p, n)] or a is not None and facts[(p, n, a)]):
@@ -1005,7 +1026,7 @@ def _check_adjusted(sx: SymX, name: Term, P: Term, I: Term, guard: Formula = TRU
         if got is None:
             return None, f"cannot evaluate `{show(name, 140)}` for a given set of internal modules"
         if got != expected:
-            inside = [_show_name(k) for k, v in facts.items() if v and k[0] != "truth"]
+            inside = [_show_name(k) for k, v in facts.items() if k != "known" and v and k[0] != "truth"]
             if P not in [q[1] for q in got if q[0] == "s"] and not any(P in leaves(t[2], ("param",)) for t in sx.atoms.values() if t[0] == "cmp" and t[1] == "in" and t[3] == I and any(y == n[1] for y in subterms(t[2]))):
                 why = f"its name never passes the root-prefix adjustment: imports written relative to module_path's parent no longer resolve when a sub-directory is scanned"
             elif a is not None and len(got) < len(expected):
